@@ -275,6 +275,95 @@ Definition answer (idx : list series) (ext : lset) (ext_ok : bool) (ms : list ma
                 | cs => [(extend (fst s) ext, cs)]
                 end) (select idx ms).
 
+(* ---- optimizePostingsFetchByDownloadedBytes: which groups are marked lazy ----------- *)
+(* number of postings of (name, value): (rng.End - rng.Start - 4) / 4 of the index-header range *)
+Definition card_key (idx : list series) (n v : str) : Z :=
+  Z.of_nat (length (filter (fun s : series => str_eqb (label_get (fst s) n) v) idx)).
+(* vals := pg.addKeys; if len(pg.removeKeys) > 0 { vals = pg.removeKeys } *)
+Definition g_vals (g : group) : list str := if is_nil (g_rem g) then g_add g else g_rem g.
+Definition g_card (idx : list series) (g : group) : Z :=
+  fold_right Z.add 0 (map (card_key idx (g_name g)) (g_vals g)).
+Definition g_existent (idx : list series) (g : group) : Z :=
+  Z.of_nat (length (filter (fun v => 0 <? card_key idx (g_name g) v) (g_vals g))).
+
+(* ratios are rationals num/den with den > 0; the Go code uses float64, which is exact for the
+   dyadic ratios and small counts the check uses *)
+Definition ceil_mul (x num den : Z) : Z := (x * num + den - 1) / den.      (* math.Ceil(float64(x) * ratio) *)
+
+Definition cg := (group * Z * Z)%type.     (* group, cardinality, existentKeys *)
+Definition cg_name (x : cg) : str := g_name (fst (fst x)).
+
+(* slices.SortFunc by (cardinality, name) *)
+Definition cg_leb (a b : cg) : bool :=
+  let ca := snd (fst a) in let cb := snd (fst b) in
+  if ca =? cb then str_leb (cg_name a) (cg_name b) else ca <? cb.
+Fixpoint cg_insert (x : cg) (l : list cg) : list cg :=
+  match l with
+  | [] => [x]
+  | y :: r => if cg_leb x y then x :: l else y :: cg_insert x r
+  end.
+Definition cg_sort (l : list cg) : list cg := fold_right cg_insert [] l.
+
+(* the loop `for i < len(postingGroups)` after the first group with add keys; returns the
+   names of the groups marked lazy *)
+Fixpoint lazy_loop (sz mn md kn kd maxSM sm : Z) (gs : list cg) : list str :=
+  match gs with
+  | [] => []
+  | (g, c, e) :: r =>
+      if sm <=? 0 then map cg_name gs                                    (* break: the rest is lazy *)
+      else if (0 <? kn) && (0 <? maxSM) && (kn * maxSM <? e * kd)        (* existentKeys/maxSeriesMatched > ratio *)
+      then g_name g :: lazy_loop sz mn md kn kd maxSM sm r                (* keys_limit *)
+      else
+        let under := if sm <? c then ceil_mul sm mn md else ceil_mul c mn md in
+        let sm' := if g_all g then sm - under else ceil_mul sm mn md in
+        let usize := if g_all g then under * sz else sz * ceil_mul sm (md - mn) md in
+        if usize <? c * 4 then map cg_name gs                            (* break: the rest is lazy *)
+        else lazy_loop sz mn md kn kd maxSM sm' r
+  end.
+
+Fixpoint span_all (l : list cg) : list cg * list cg :=
+  match l with
+  | x :: r => if g_all (fst (fst x)) then let (a, b) := span_all r in (x :: a, b) else ([], l)
+  | [] => ([], [])
+  end.
+
+(* None = "emptyPostingGroup": some group with add keys has no existing key, nothing can match *)
+Definition lazy_marking (idx : list series) (sz mn md kn kd : Z) (gs : list group) : option (list str) :=
+  if (length gs <=? 1)%nat then Some []
+  else if existsb (fun g => negb (is_nil (g_add g)) && (g_existent idx g =? 0)) gs then None
+  else
+    let sorted := cg_sort (map (fun g => (g, g_card idx g, g_existent idx g)) gs) in
+    let (negs, rest) := span_all sorted in
+    match rest with
+    | (g, c, e) :: x2 :: r2 =>
+        let neg := fold_right Z.add 0 (map (fun x : cg => snd (fst x)) negs) in
+        let sm := c - ceil_mul neg mn md in
+        Some (lazy_loop sz mn md kn kd sm sm (x2 :: r2))
+    | _ => Some []
+    end.
+
+(* the groups handed to fetchLazyExpandedPostings by ExpandedPostings, and whether the special
+   all-postings group is needed *)
+Definition kept_groups (gs : list group) : list group :=
+  filter (fun g => negb (is_nil (g_add g) && is_nil (g_rem g))) gs.
+Definition add_all_postings (gs : list group) : bool :=
+  existsb g_all gs && negb (existsb (fun g => negb (is_nil (g_add g))) gs).
+
+(* the marking the real code makes for a query: lazy enabled, S = estimated max series size *)
+Definition real_marking (idx : list series) (sz mn md kn kd : Z) (gs : list group) : option (list str) :=
+  if add_all_postings gs || negb (0 <? sz) then Some []
+  else lazy_marking idx sz mn md kn kd (kept_groups gs).
+
+(* series whose postings are actually fetched and intersected (the eager groups only) *)
+Definition eager_candidates (idx : list series) (gs : list group) (lazy : list str) : list series :=
+  let gs' := if add_all_postings gs then kept_groups gs ++ [all_group] else kept_groups gs in
+  let eager := filter (fun g => negb (smem (g_name g) lazy)) gs' in
+  let adds := filter (fun g => negb (is_nil (g_add g))) eager in
+  if is_nil adds then []
+  else filter (fun s : series =>
+                 forallb (fun g => smem (label_get (fst s) (g_name g)) (g_add g)) adds
+                 && forallb (fun g => negb (smem (label_get (fst s) (g_name g)) (g_rem g))) eager) idx.
+
 (* ---- the expanded-postings cache over a history of queries ----------------------- *)
 (* The index cache keeps, per block, the expanded postings of a matcher list
    (storeExpandedPostingsToCache / fetchExpandedPostingsFromCache): the key is made of the
@@ -350,7 +439,11 @@ Inductive case :=
 | CSel (idx : list series) (ext : lset) (ext_ok : bool) (ms : list matcher)
        (impls : list (list step_obs))    (* per store configuration: the history of (range, answer), canonically sorted answers *)
        (oracles : list step_obs)         (* per distinct range: the TSDB read of that range *)
-| CPart (maxGap : Z) (rs : list (Z * Z)) (impl : list part).
+| CPart (maxGap : Z) (rs : list (Z * Z)) (impl : list part)
+(* lazy marking: real matchersToPostingGroups result, names marked lazy by ExpandedPostings,
+   number of postings fetched *)
+| CLazy (idx : list series) (ms : list matcher) (sz mn md kn kd : Z)
+        (groups : option (list group)) (lazy : list str) (postings : Z).
 
 Definition kv_eqb (a b : str * str) : bool := str_eqb (fst a) (fst b) && str_eqb (snd a) (snd b).
 Definition chunk_eqb (a b : chunk) : bool :=
@@ -378,6 +471,10 @@ Fixpoint parts_cover_from (rs : list (Z * Z)) (ps : list part) (j : nat) : bool 
   end.
 Definition parts_cover (rs : list (Z * Z)) (ps : list part) : bool := parts_cover_from rs ps 0.
 
+Definition group_eqb (a b : group) : bool :=
+  str_eqb (g_name a) (g_name b) && Bool.eqb (g_all a) (g_all b)
+  && list_eqb str_eqb (g_add a) (g_add b) && list_eqb str_eqb (g_rem a) (g_rem b).
+
 Fixpoint all2 {A B} (f : A -> B -> bool) (l1 : list A) (l2 : list B) : bool :=
   match l1, l2 with
   | [], [] => true
@@ -396,6 +493,18 @@ Definition corr_ok (c : case) : bool :=
                  all2 (fun m (st : step_obs) => set_eqb m (snd st)) model hist) impls
   | CPart g rs impl =>
       option_eqb (list_eqb part_eqb) (partition (length rs) g rs 0%nat) (Some impl)
+  | CLazy idx ms sz mn md kn kd groups lazy postings =>
+      option_eqb (list_eqb group_eqb) (matchers_to_groups idx ms) groups
+      && match matchers_to_groups idx ms with
+         | None => is_nil lazy && (postings =? 0)
+         | Some gs =>
+             match real_marking idx sz mn md kn kd gs with
+             | None => is_nil lazy && (postings =? 0)
+             | Some names =>
+                 list_eqb str_eqb (ssort names) lazy
+                 && (postings =? Z.of_nat (length (eager_candidates idx gs names)))
+             end
+         end
   end.
 
 Fixpoint oracle_for (oracles : list step_obs) (mint maxt : Z) : option (list series) :=
@@ -415,4 +524,12 @@ Definition pred_ok (c : case) : bool :=
                             | None => false
                             end) hist) impls
   | CPart g rs impl => parts_cover rs impl
+  (* on the implementation's own marking: some group with add keys is still fetched *)
+  | CLazy _ _ _ _ _ _ _ groups lazy _ =>
+      match groups with
+      | None => true
+      | Some gs =>
+          negb (existsb (fun g => negb (is_nil (g_add g))) gs)
+          || existsb (fun g => negb (is_nil (g_add g)) && negb (smem (g_name g) lazy)) gs
+      end
   end.
